@@ -46,12 +46,12 @@ theorem Bsq_le_pow {n : Nat} (hn : 2 ≤ n) : B * B ≤ B ^ n := by
   have := Nat.pow_le_pow_right B_pos hn
   rwa [Nat.pow_two] at this
 
-/-- The REPAIRED reduction step (increment in the wide type) is correct for ANY double-width input
-    `(lo, hi)` and any `1 ≤ c < 2^64`, for all limb counts `≥ 2`. -/
-theorem specialReduceRepaired_spec {lo hi : List Nat} {c : Nat} (hlo : WF lo) (hhi : WF hi)
+/-- The reduction step of `mul_mod_special` (increment in the wide type) is correct for ANY
+    double-width input `(lo, hi)` and any `1 ≤ c < 2^64`, for all limb counts `≥ 2`. -/
+theorem specialReduce_spec {lo hi : List Nat} {c : Nat} (hlo : WF lo) (hhi : WF hi)
     (h : lo.length = hi.length) (hn : 2 ≤ lo.length) (hc1 : 1 ≤ c) (hc : c < B) :
-    val (specialReduceRepaired lo hi c) = (val lo + B ^ lo.length * val hi) % (B ^ lo.length - c) ∧
-    WF (specialReduceRepaired lo hi c) ∧ (specialReduceRepaired lo hi c).length = lo.length := by
+    val (specialReduce lo hi c) = (val lo + B ^ lo.length * val hi) % (B ^ lo.length - c) ∧
+    WF (specialReduce lo hi c) ∧ (specialReduce lo hi c).length = lo.length := by
   have ⟨e1, hq, hmw, hml⟩ := macByLimb_spec hlo hhi h hc (show 0 < B by decide)
   have hvlo := val_lt hlo
   have hvhi := val_lt hhi; rw [← h] at hvhi
@@ -61,7 +61,7 @@ theorem specialReduceRepaired_spec {lo hi : List Nat} {c : Nat} (hlo : WF lo) (h
   -- name the pieces
   generalize hqd : (macByLimb lo hi c 0).2 = q at *
   generalize hm1 : (macByLimb lo hi c 0).1 = m at *
-  have hd : specialReduceRepaired lo hi c =
+  have hd : specialReduce lo hi c =
       (usbb (uadc m (fromWideWord lo.length ((q + 1) * c)) 0).1
         (fromWord lo.length (wsub (uadc m (fromWideWord lo.length ((q + 1) * c)) 0).2 1 &&& c)) 0).1 := by
     show (usbb (uadc (macByLimb lo hi c 0).1 (fromWideWord lo.length (((macByLimb lo hi c 0).2 + 1) * c)) 0).1
@@ -94,7 +94,7 @@ theorem specialReduceRepaired_spec {lo hi : List Nat} {c : Nat} (hlo : WF lo) (h
   have hlen2 : ∀ l, (uadc m (fromWideWord lo.length ((q + 1) * c)) 0).1.length
       = (fromWord lo.length l).length := by intro l; rw [hl2, hml, fromWord_length]
   -- the value before the final modular identification
-  have hu : val (specialReduceRepaired lo hi c) = (val m + q * c) % (B ^ lo.length - c) := by
+  have hu : val (specialReduce lo hi c) = (val m + q * c) % (B ^ lo.length - c) := by
     rw [hd]
     rcases uadc_val_cases hlen1 hs with ⟨h0, hv, hlt⟩ | ⟨h1, hv⟩
     · rw [h0, w0, WMAX_and hc]
@@ -127,26 +127,6 @@ theorem specialReduceRepaired_spec {lo hi : List Nat} {c : Nat} (hlo : WF lo) (h
   · rw [hd]; exact usbb_WF _ _ _
   · rw [hd, usbb_length _ _ _ (hlen2 _), hl2, hml]
 
-/-- as long as `carry + 1` does not overflow the limb, the code as written computes the repaired
-    reduction -/
-theorem specialReduce_eq_repaired {lo hi : List Nat} {c : Nat}
-    (H : (macByLimb lo hi c 0).2 + 1 < B) : specialReduce lo hi c = specialReduceRepaired lo hi c := by
-  have hwadd : wadd (macByLimb lo hi c 0).2 1 = (macByLimb lo hi c 0).2 + 1 := by
-    unfold wadd; exact Nat.mod_eq_of_lt H
-  unfold specialReduce specialReduceRepaired
-  simp only []
-  rw [hwadd]
-
-/-- The reduction step of `mul_mod_special` AS WRITTEN, for ANY double-width input `(lo, hi)`:
-    correct as soon as `carry + 1` does not overflow the limb. -/
-theorem specialReduce_spec {lo hi : List Nat} {c : Nat} (hlo : WF lo) (hhi : WF hi)
-    (h : lo.length = hi.length) (hn : 2 ≤ lo.length) (hc1 : 1 ≤ c) (hc : c < B)
-    (H : (macByLimb lo hi c 0).2 + 1 < B) :
-    val (specialReduce lo hi c) = (val lo + B ^ lo.length * val hi) % (B ^ lo.length - c) ∧
-    WF (specialReduce lo hi c) ∧ (specialReduce lo hi c).length = lo.length := by
-  rw [specialReduce_eq_repaired H]
-  exact specialReduceRepaired_spec hlo hhi h hn hc1 hc
-
 /-- the carry limb of `lo + hi·c` never exceeds `c` -/
 theorem macByLimb_carry_le {lo hi : List Nat} {c : Nat} (hlo : WF lo) (hhi : WF hi)
     (h : lo.length = hi.length) (hc : c < B) : (macByLimb lo hi c 0).2 ≤ c := by
@@ -167,41 +147,5 @@ theorem split_product {a b : List Nat} (ha : WF a) (hb : WF b) (h : a.length = b
   have hlt : val a * val b < B ^ a.length * B ^ a.length := Nat.mul_lt_mul'' hva hvb
   rw [val_toLimbs, val_toLimbs, Nat.mod_eq_of_lt (Nat.div_lt_of_lt_mul hlt)]
   exact Nat.mod_add_div _ _
-
-/-- with two limbs and operands below `p = 2^128 - c` the carry limb stays below `Word::MAX` -/
-theorem no_overflow_two_limbs {a b : List Nat} {c : Nat} (ha : WF a) (hb : WF b)
-    (h : a.length = b.length) (h2 : a.length = 2) (hc : c < B)
-    (hlta : val a < B ^ a.length - c) (hltb : val b < B ^ a.length - c) :
-    (macByLimb (toLimbs a.length (val a * val b))
-      (toLimbs a.length (val a * val b / B ^ a.length)) c 0).2 + 1 < B := by
-  have hlo := toLimbs_WF a.length (val a * val b)
-  have hhi := toLimbs_WF a.length (val a * val b / B ^ a.length)
-  have hll : (toLimbs a.length (val a * val b)).length
-      = (toLimbs a.length (val a * val b / B ^ a.length)).length := by
-    rw [toLimbs_length, toLimbs_length]
-  have hle := macByLimb_carry_le hlo hhi hll hc
-  by_cases hcm : c + 1 < B
-  · omega
-  · have hcM : c = WMAX := by simp only [B_def, WMAX_def] at *; omega
-    subst hcM
-    have ⟨e1, _, hmw, hml⟩ := macByLimb_spec hlo hhi hll (show WMAX < B by decide) (show 0 < B by decide)
-    have hsp := split_product ha hb h
-    have hvlo := val_lt hlo
-    rw [toLimbs_length] at e1 hvlo
-    have hK : B ^ a.length = 340282366920938463463374607431768211456 := by rw [h2]; decide
-    have hprod : val a * val b ≤ (B ^ a.length - WMAX - 1) * (B ^ a.length - WMAX - 1) :=
-      Nat.mul_le_mul (by omega) (by omega)
-    generalize val a * val b = P at *
-    generalize val (toLimbs a.length P) = L at *
-    generalize val (toLimbs a.length (P / B ^ a.length)) = Hh at *
-    generalize (macByLimb (toLimbs a.length P) (toLimbs a.length (P / B ^ a.length)) WMAX 0).2 = q at *
-    generalize val (macByLimb (toLimbs a.length P) (toLimbs a.length (P / B ^ a.length)) WMAX 0).1 = m at *
-    rw [hK] at e1 hvlo hsp hprod
-    have hP : (340282366920938463463374607431768211456 - WMAX - 1) * (340282366920938463463374607431768211456 - WMAX - 1)
-        = 115792089237316195411016781537914546325938688186146169670716247726416828825600 := by decide
-    rw [hP] at hprod
-    clear hmw hml hlo hhi hll hle hlta hltb ha hb
-    simp only [B_def, WMAX_def] at *
-    omega
 
 end CB.ModArith
